@@ -199,6 +199,30 @@ def run_sim(case):
             if abs(a[0] - 1) > 1e-12:
                 return violated(sig, "abrm: zero pulse at x = 0 gives a = %s, not 1" % a[0], wit,
                                 mech="zero-pulse:" + sim)
+    # positions are independent of each other: simulating the same waveform on the reversed
+    # position list must give the reversed outputs (also catches anything remembered from the
+    # previous call that depends on the positions)
+    if npos >= 2:
+        if sim == "abrm_ptx":
+            ex2 = dict(extra)
+            if "fmap" in ex2:
+                ex2["fmap"] = ex2["fmap"].reshape(-1)[::-1].reshape(ex2["fmap"].shape)
+            if "sens" in ex2:
+                nc_ = ex2["sens"].shape[0]
+                # abrm_ptx flattens sens as transpose(sens).reshape(dim*dim, nc)
+                flat = np.transpose(ex2["sens"]).reshape(-1, nc_)[::-1]
+                ex2["sens"] = np.transpose(flat.reshape(np.transpose(ex2["sens"]).shape))
+            ar, br = simulate(sim, rf, x[::-1].copy(), g, ex2)
+        else:
+            ar, br = simulate(sim, rf, x[::-1].copy(), g, extra)
+        e = float(max(np.max(np.abs(ar[::-1] - a)), np.max(np.abs(br[::-1] - b))))
+        checks += 1
+        obs["position_reversal"] = e
+        if not e <= max(1e-12, utol):
+            return violated(sig, "%s: simulating the reversed position list does not give the "
+                            "reversed result (max difference %.3g): positions are not treated "
+                            "independently / something is remembered between calls" % (sim, e),
+                            wit, mech="position-independence:" + sim, obs=obs)
     # composition
     if nt >= 2:
         k = int(rng.integers(1, nt))
@@ -292,7 +316,12 @@ def run_slr(case):
     checks = 0
     obs = {"peak": peak}
     worst = 0.0
-    for name in ("abrm_hp", "blochsim"):
+    for name in ("abrm_hp", "blochsim", "abrm_hp", "blochsim"):
+        if checks >= 2:
+            # second pass on another frequency grid of the same size (same gradient)
+            x = np.linspace(-n / 6, n / 6, 256, endpoint=False) + 0.013
+            w = 2 * np.pi * x / n
+            Bw = np.abs(response(b, w))
         if name == "abrm_hp":
             _, bs = rfm.sim.abrm_hp(rf, np.full(n, 2 * np.pi / n), x)
         else:
@@ -300,7 +329,7 @@ def run_slr(case):
         e = float(np.max(np.abs(np.abs(bs) - Bw)))
         checks += 1
         worst = max(worst, e)
-        obs["roundtrip_" + name] = e
+        obs["roundtrip_" + name] = max(e, obs.get("roundtrip_" + name, 0.0))
         if not e <= 1e-5:
             return violated(sig, "simulating b2rf(b) with %s does not reproduce |B|: max "
                             "deviation %.3g over 256 frequencies (max|B| = %.3f)" % (
